@@ -480,8 +480,8 @@ func (c *Cluster) Step(e Event) (ok bool) {
 // fetch is replaced by the leader's real FetchSnapshot served in-process.
 func (c *Cluster) install(r, src *Replica, snap []byte, snapIdx uint64) (err error) {
 	r.Node.VerifRaftSentinel(true)
-	r.Node.VerifSetHooks(&consensus.VerifHooks{Fetch: func(lastSeqNum, lastAppliedVersion, startSeqNum uint64) (io.ReadCloser, error) {
-		return src.Node.VerifServeSnapshot(lastAppliedVersion, startSeqNum, lastSeqNum)
+	r.Node.VerifSetHooks(&consensus.VerifHooks{Fetch: func(req *consensus.FetchSnapshotRequest) (consensus.ClusterService_FetchSnapshotClient, error) {
+		return src.Node.VerifServeStream(req)
 	}})
 	defer func() {
 		r.Node.VerifSetHooks(nil)
@@ -799,4 +799,110 @@ func (c *Cluster) rebuild(r *Replica, ops []rop) {
 		}
 	}
 	r.ops = append([]rop{}, ops...)
+}
+
+// ---------------------------------------------------------------- version-gap refusal (C09)
+
+type GapCase struct {
+	Entries         []int `json:"entries"`         // bulk sizes of the committed log
+	PurgeAfter      int   `json:"purgeAfter"`      // the leader's WAL is purged after this many entries
+	FollowerApplied int   `json:"followerApplied"` // entries the follower applied itself (0 = brand-new node)
+}
+
+// RunGapCase returns "refused", "transferred" or "violation".
+func RunGapCase(run *ev.Run, gc GapCase) string {
+	c := &Cluster{Run: run, Base: filepath.Join(os.Getenv("VERIF_SCRATCH_DIR"), fmt.Sprintf("gap%d", atomic.AddInt64(&dirSeq, 1))), MaxRep: 2, dirty: map[int]bool{}}
+	defer c.Destroy()
+	viol := func(sig string, more map[string]interface{}) string {
+		d := map[string]interface{}{"gapCase": gc}
+		for k, v := range more {
+			d[k] = v
+		}
+		run.Violation(sig, d)
+		return "violation"
+	}
+	// leader: a store that keeps no archived write-ahead log
+	ld := &Replica{ID: 0, Dir: filepath.Join(c.Base, "leader"), joined: true}
+	os.MkdirAll(ld.Dir, 0755)
+	openLeader := func() error {
+		o := rocks.DefaultOptions()
+		o.Path, o.WALSizeLimitMB, o.WALTtlSeconds = ld.Dir, 0, 0
+		s, err := rocks.NewRocksDBStoreWithOpts(o)
+		if err != nil {
+			return err
+		}
+		ld.rs, ld.cs, ld.bc = s, &crashStore{ManagedStore: s}, getCache()
+		n, err := consensus.VerifNewBareNode("r0", ld.cs, ld.bc, nil)
+		if err != nil {
+			return err
+		}
+		ld.Node = n
+		return nil
+	}
+	if err := openLeader(); err != nil {
+		panic(err)
+	}
+	c.R = append(c.R, ld)
+	if err := c.addReplica(); err != nil {
+		panic(err)
+	}
+	fl := c.R[1]
+	c.quiet = true
+	ev0 := 0
+	for i, k := range gc.Entries {
+		var ds [][]byte
+		hs := make([]hashing.Digest, k)
+		for j := 0; j < k; j++ {
+			d := Digest(ev0 + j)
+			ds, hs[j] = append(ds, d), d
+		}
+		data, _ := consensus.VerifEncodeAddCommand(hs)
+		ent := Entry{Index: uint64(i + 1), Data: data, Digests: ds, First: uint64(ev0)}
+		c.Log = append(c.Log, ent)
+		snaps, _, crashed := c.apply(ld, ent, false)
+		if crashed || len(snaps) != k {
+			return viol("[C09] harness: leader failed to apply", nil)
+		}
+		ld.Applied++
+		c.Acked = append(c.Acked, snaps...)
+		c.Events = append(c.Events, ds...)
+		ev0 += k
+		if i < gc.FollowerApplied {
+			c.apply(fl, ent, false)
+			fl.Applied++
+		}
+		if i+1 == gc.PurgeAfter {
+			ld.shutdown()
+			if err := openLeader(); err != nil {
+				panic(err)
+			}
+		}
+	}
+	c.quiet = false
+	g := c.Golden()
+	beforeDump, beforeVer := tableHash(fl.rs), fl.Node.VerifBalloon().Version()
+	snap, err := ld.Node.VerifSnapshotBytes()
+	if err != nil {
+		return viol("[C09] taking a raft snapshot of the FSM fails: "+err.Error(), nil)
+	}
+	c.Path = []Event{{Kind: "gap-scenario"}}
+	ierr := c.install(fl, ld, snap, ld.Applied)
+	run.Eval(1)
+	afterDump, afterVer := tableHash(fl.rs), fl.Node.VerifBalloon().Version()
+	if ierr != nil {
+		if afterDump != beforeDump || afterVer != beforeVer {
+			return viol("[C09] a refused state transfer leaves the follower modified", map[string]interface{}{"error": normPanic(ierr)})
+		}
+		return "refused"
+	}
+	n := len(gc.Entries)
+	if afterDump != g.Dump[n] || afterVer != g.Version[n] {
+		if afterDump == beforeDump && afterVer == beforeVer {
+			return viol("[C09] a state transfer that transferred nothing reports success (the follower is left behind while raft believes it restored)", map[string]interface{}{"followerVersion": afterVer})
+		}
+		return viol("[C09] a state transfer that leaves a gap in the version sequence is applied instead of refused", map[string]interface{}{"followerVersion": afterVer, "leaderVersion": g.Version[n]})
+	}
+	fl.Applied = uint64(n)
+	c.CheckReplica(fl, true)
+	return "transferred"
 }
